@@ -372,7 +372,7 @@ func senseOK(bs boundSite, trigs []goan.Trig, cls string) (bool, string) {
 // checkDiffsTo derives the orientation of fromArrayStruct.DiffsTo / fromMapStruct.DiffsTo
 // results from their bodies (membership-flag idiom) and sets r.DiffsAdded/Deleted.
 func checkDiffsTo(c *Ctx, r *goan.Rel) {
-	rule := "C14.R3.diffsto"
+	rule := c.Property + ".R3.diffsto"
 	c.Rule(rule, "DiffsTo: the flag stored while ranging the receiver selects the 'deleted' result, the flag stored while ranging the argument selects 'added'; both overloads agree; early returns agree", 4)
 	pk := r.Pkg
 	info := pk.TypesInfo
